@@ -13,7 +13,8 @@ mkdir -p "$base/home/evidence"; cp /verif/properties.jsonl /verif/known_findings
 props=$(jq -r '.checks[].property_id' /verif/MANIFEST.json)
 patches=""
 for a in "$@"; do
-  if [ -d "$a" ]; then patches="$patches $(ls "$a"/*/patch.diff "$a"/*/*/patch.diff 2>/dev/null)"; else patches="$patches $a"; fi
+  a=$(readlink -f "$a")
+  if [ -d "$a" ]; then patches="$patches $(ls "$a"/patch.diff "$a"/*/patch.diff "$a"/*/*/patch.diff 2>/dev/null)"; else patches="$patches $a"; fi
 done
 for p in $patches; do
   ( cd "$wt" && git checkout -q -- . && git clean -fdq && git apply "$p" ) || { echo "REFCHECK $p: patch does not apply"; continue; }
